@@ -10,9 +10,16 @@
 (* Request models the repaired code (fixes/C35-*.patch); RequestAsOriginallyCoded what was coded before:   *)
 (* a valid response was appended and then the empty local bytes were parsed (Accept failed), and a wrong   *)
 (* chunk was taken for the referenced one.                                                                 *)
+(*                                                                                                         *)
+(* Producer rate limit: pend = chunks pending on the acceptor, PW(p) = how many of them producer p made    *)
+(* (all chunks weigh one unit), limit is GetMaxAccumulatedProducerChunkWeight in units.  The limit is enforced where a       *)
+(* producer asks for a signature (the caller of Store), NOT on the chunks Accept fetches: a referenced     *)
+(* chunk must be taken even if it pushes its producer over the limit.  RequestRateLimited is the variant   *)
+(* in which VerifyRemoteChunk itself enforces the limit: the valid response is refused for ever and        *)
+(* Served fails (kept for the sensitivity run of the design step).                                         *)
 EXTENDS Integers, Sequences, FiniteSets, TLC
 
-CONSTANTS Chunks, Kinds
+CONSTANTS Chunks, Kinds, Producers
 
 VARIABLES have,      \* chunks retrievable from the acceptor's storage
           status,    \* "idle" | "running" | "failed"
@@ -20,26 +27,38 @@ VARIABLES have,      \* chunks retrievable from the acceptor's storage
           idx, out,  \* next certificate to resolve, chunks collected so far
           script,    \* responses the peers will still give
           nreq,      \* requests sent during this Accept
-          res        \* result of the last finished Accept: "none" | "ok" | "err"
+          res,       \* result of the last finished Accept: "none" | "ok" | "err"
+          prod,      \* producer of every chunk seen so far ("none" = not yet known)
+          limit,     \* producer rate limit in chunks (configuration)
+          pend       \* chunks in the acceptor's pending map (subset of have; the others are accepted)
 
-avars == <<have, status, certs, idx, out, script, nreq, res>>
+avars == <<have, status, certs, idx, out, script, nreq, res, prod, limit, pend>>
 
-AcceptInit ==
+PW(p) == Cardinality({c \in pend : prod[c] = p})
+
+AcceptInit(lim) ==
   /\ have = {} /\ status = "idle" /\ certs = <<>> /\ idx = 1 /\ out = <<>> /\ script = <<>> /\ nreq = 0 /\ res = "none"
+  /\ prod = [c \in Chunks |-> "none"] /\ limit = lim /\ pend = {}
 
 (* resolve certificates from local storage as far as possible *)
 RECURSIVE Adv(_, _, _, _)
 Adv(cs, i, o, h) == IF i <= Len(cs) /\ cs[i] \in h THEN Adv(cs, i + 1, Append(o, cs[i]), h) ELSE <<i, o>>
 
-Store(c) ==        \* the chunk reaches local storage before the block (signed for its producer)
+Store(c, p) ==     \* the chunk of producer p reaches local storage before the block (signed for its producer)
   /\ status = "idle" /\ have' = have \cup {c}
-  /\ UNCHANGED <<status, certs, idx, out, script, nreq, res>>
+  /\ prod' = [prod EXCEPT ![c] = p]
+  /\ pend' = pend \cup {c}
+  /\ UNCHANGED <<status, certs, idx, out, script, nreq, res, limit>>
 
-AcceptCall(cs, sc) ==
+AcceptCall(cs, ps, sc) ==          \* ps[i] = producer of cs[i]
   /\ status = "idle" /\ status' = "running"
   /\ certs' = cs /\ script' = sc /\ nreq' = 0
+  /\ prod' = [c \in Chunks |-> IF \E i \in DOMAIN cs : cs[i] = c THEN ps[CHOOSE i \in DOMAIN cs : cs[i] = c] ELSE prod[c]]
   /\ LET a == Adv(cs, 1, <<>>, have) IN idx' = a[1] /\ out' = a[2]
-  /\ UNCHANGED <<have, res>>
+  /\ UNCHANGED <<have, res, limit, pend>>
+
+(* the chunk Accept is waiting for would push its producer over the limit *)
+OverLimit == status = "running" /\ idx <= Len(certs) /\ PW(prod[certs[idx]]) + 1 > limit
 
 NextKind == IF script = <<>> THEN "valid" ELSE Head(script)
 Pop      == IF script = <<>> THEN <<>> ELSE Tail(script)
@@ -51,9 +70,23 @@ Request(want, kind) ==
   /\ script' = Pop /\ nreq' = nreq + 1
   /\ IF kind = "valid"
        THEN /\ have' = have \cup {want}
+            /\ pend' = pend \cup {want}                          \* stored as pending whatever the limit says
             /\ LET a == Adv(certs, idx + 1, Append(out, want), have') IN idx' = a[1] /\ out' = a[2]
-       ELSE UNCHANGED <<have, idx, out>>                       \* retry
-  /\ UNCHANGED <<status, certs, res>>
+       ELSE UNCHANGED <<have, idx, out, pend>>                 \* retry
+  /\ UNCHANGED <<status, certs, res, prod, limit>>
+
+(* variant: VerifyRemoteChunk enforces the producer limit on fetched chunks as well.  nreq stops counting  *)
+(* once the script is exhausted so that the endless retry is a finite lasso for TLC.                       *)
+RequestRateLimited(want, kind) ==
+  /\ status = "running" /\ idx <= Len(certs)
+  /\ want = certs[idx] /\ kind = NextKind
+  /\ script' = Pop /\ nreq' = IF script = <<>> THEN nreq ELSE nreq + 1
+  /\ IF kind = "valid" /\ ~OverLimit
+       THEN /\ have' = have \cup {want}
+            /\ pend' = pend \cup {want}
+            /\ LET a == Adv(certs, idx + 1, Append(out, want), have') IN idx' = a[1] /\ out' = a[2]
+       ELSE UNCHANGED <<have, idx, out, pend>>
+  /\ UNCHANGED <<status, certs, res, prod, limit>>
 
 RequestAsOriginallyCoded(want, kind) ==
   /\ status = "running" /\ idx <= Len(certs)
@@ -62,16 +95,17 @@ RequestAsOriginallyCoded(want, kind) ==
   /\ IF kind = "valid" THEN status' = "failed" /\ UNCHANGED <<have, idx, out>>    \* falls through to ParseChunk(nil)
      ELSE IF kind = "wrong" THEN status' = "failed" /\ UNCHANGED <<have, idx, out>>
      ELSE UNCHANGED <<status, have, idx, out>>
-  /\ UNCHANGED <<certs, res>>
+  /\ UNCHANGED <<certs, res, prod, limit, pend>>
 
-AcceptReturn ==
+AcceptReturn ==                    \* SetMin saves the block's chunks as accepted: they stop being pending
   /\ status = "running" /\ idx > Len(certs)
   /\ status' = "idle" /\ res' = "ok"
-  /\ UNCHANGED <<have, certs, idx, out, script, nreq>>
+  /\ pend' = pend \ {certs[i] : i \in DOMAIN certs}
+  /\ UNCHANGED <<have, certs, idx, out, script, nreq, prod, limit>>
 
 AcceptFail ==
   /\ status = "failed" /\ status' = "idle" /\ res' = "err"
-  /\ UNCHANGED <<have, certs, idx, out, script, nreq>>
+  /\ UNCHANGED <<have, certs, idx, out, script, nreq, prod, limit, pend>>
 
 -----------------------------------------------------------------------------
 (* C35 *)
@@ -80,5 +114,6 @@ PrefixExact  == status = "running" => /\ idx - 1 = Len(out)
                                       /\ \A i \in 1..Len(out) : out[i] = certs[i]
 NeverFails   == status # "failed" /\ res # "err"
 Served       == status = "running" ~> status = "idle"                        \* succeeds once a peer serves a valid chunk
-AcceptTypeOK == have \subseteq Chunks /\ status \in {"idle", "running", "failed"} /\ idx \in 1..(Len(certs) + 1)
+AcceptTypeOK == /\ have \subseteq Chunks /\ status \in {"idle", "running", "failed"} /\ idx \in 1..(Len(certs) + 1)
+                /\ pend \subseteq have
 =============================================================================
